@@ -232,6 +232,14 @@ class C06(ApiScenario):
             return gen_real_case(seed)
         case = super().gen_case(seed, tier, idx)
         rng = random.Random(f"{seed}:c06")
+        if rng.random() < 0.01:
+            # a backlog of thousands of undispatched events (slow handler, busy directory) at the moment of stop() /
+            # unschedule(): no emitter may be left blocked on the queue
+            n = rng.choice([1500, 5000, 9000])
+            ender = rng.choice([[["stop"]], [["unschedule", 0], ["stop"]], [["unschedule_all"], ["stop"]]])
+            return {"specs": [["/w/p0", True, 0]], "scripts": {"0": [["flood", n]]}, "handlers": 1, "hscripts": [[0, 0, ["sleep", 4096]]], "emitter_faults": {},
+                    "actors": [[["schedule", 0, 0], ["start"], ["sleep", 1024], *ender]], "no_final_stop": False, "flood": n,
+                    "sched": {"policy": "sticky", "p_switch": rng.choice([0.0, 0.02]), "p_line": 0.0, "line": False, "step_cap": 3_000_000, "horizon": 600}}
         case["no_final_stop"] = rng.random() < 0.5
         if rng.random() < 0.12:
             # start() a second time (it raises RuntimeError like any thread; it must not disturb anything else)
